@@ -45,6 +45,14 @@ THEOREMS = [
     "Poupool.Eco.C10_heating_polls_no_cutoff",
     "Poupool.Eco.C10_heating_entry_exit",
     "Poupool.Eco.C10_quota_literal_upper_late_heating_counterexample",
+    # whole days WITH one complete heating interlude (Proofs/EcoDayHeat2.lean): interlude accounting (pump-on time grows by
+    # exactly the interlude, the accounted duration by that minus at most heatLoss = 70 s + 3 eps) and the two-sided day
+    # bound for an interlude that is over before the quota is exceeded by more than a poll
+    "Poupool.Eco.C10_heating_interlude_accounting",
+    "Poupool.Eco.C10_quota_heating_day_partial",
+    # both regimes (no hypothesis on the accounted duration at the end of the interlude), the bound in the monitor's form,
+    # and the late regime of the open finding: the pump stops after the compute delay
+    "Poupool.Eco.C10_quota_heating_day_monitor_partial",
 ]
 
 
@@ -64,7 +72,7 @@ ASSUMPTIONS = [
     "the closed-loop correspondence compares pump switching instants up to 1 s: the simulator's clock moves inside a handler (asks drain other inboxes, 0.5 s sleeps of the ADC read), the model attributes a handler's effects to its start; state entries and persisted payloads are compared exactly",
     "a day of the property = between two nominal resets (reset_hour:00:00); a day of the model = between two reset polls (<= one poll + eps later)",
     "C10_quota_whole_day: tick-only runs (no heating interlude, no setting change), eps <= 0.6 s (EPS_US, checked on every real run), the pool does not enter eco at the exact microsecond of a reset (hypothesis hs), restored elapsed duration >= 0; every other setting is universally quantified (daily >= 1 s, period 1..10, any tank percentage / reset hour / start)",
-    "heating interludes: proved are the accounting of heating polls (factor 1, pump on, no quota cut-off) and the model witness of the literal-reading violation; the two-sided day bound for days WITH a heating interlude is decided by the monitor on the real traces only (not a theorem yet)",
+    "heating interludes: proved are the accounting of heating polls (factor 1, pump on, no quota cut-off), the model witness of the literal-reading violation, the accounting of a complete interlude (pump-on time + exactly the interlude, accounted duration + the interlude - at most 70 s + 3 eps) and, for the FIRST day of a run that contains an interlude, with ONE complete interlude that is over before the reset, the day bound in the monitor's form: min(daily, 24 h) - slackLoHeat <= on <= max(min(daily, 24 h), on when the interlude's delay expired) + slackHiHeat (slackHiHeat <= 173.2 s; slackLoHeat < 180 s only for period <= 5, slackPlan < 180 s when the quota is still reachable after the interlude), incl. the late regime (quota used up: the pump stops after the compute delay, on <= on at the expiry + 5 s + eps); several interludes per day, later heating days of a run, an interlude that spans the reset and the lower slack for period >= 6 are decided by the monitor on the real traces only",
 ]
 
 
@@ -199,10 +207,16 @@ def run(chk):
         "slackHi_us(period, eps)": "15 s + (4 * period + 9) * eps",
         "slackLo(10, 0.5 s)": slack_lo_us(10, 500_000) / ec.US, "slackLo(10, 0.6 s)": slack_lo_us(10, 600_000) / ec.US,
         "slackHi(10, 0.6 s)": slack_hi_us(10, 600_000) / ec.US,
+        "heating_day (one complete interlude, C10_quota_heating_day_partial)": {
+            "heatLoss_us(eps)": "70 s + 3 * eps (<= 71.8 s)",
+            "slackPlan_us(period, eps)": "5 s + period * (10 s + 1 us) + (7 * period + 9) * eps (<= 152.40001 s)",
+            "slackLoHeat_us(period, eps)": "10 s + 3 * eps + 2 * slackPlan (117.800006 s at period 3, 174.60001 s at period 5, 316.60002 s at period 10; eps 0.6 s)",
+            "slackHiHeat_us(period, eps)": "100 s + (10 * period + 22) * eps (<= 173.2 s)",
+        },
         "model_runs": "Lean #eval, 2 whole days, daily 85800 s, period 10, every tick 0.499999 s late: pump-on 85769.013 s / 85758.513 s (n = 10, 9 cycles, j = 35.5 s, u = 26.5 s)",
         "real_code_search": "targeted search (period 10, pauses of 1..60 s, 48 days; heating at/near the reset hour, 16 days) on the real system: worst plain whole day -97.0 s (daily 86288 s), worst heating day +67.5 s; no day beyond 180 s",
     }
-    chk.extra["rule"] = "22 Lean theorems over Model/Eco.lean + EcoConfig regenerated from the source; EcoMode correspondence op-exact; closed-loop correspondence on whole virtual days of the real composed system; monitors decide the property's statement on the real code"
+    chk.extra["rule"] = "25 Lean theorems over Model/Eco.lean + EcoConfig regenerated from the source; EcoMode correspondence op-exact; closed-loop correspondence on whole virtual days of the real composed system; monitors decide the property's statement on the real code"
 
 
 LATE_HEATING = {"kind": "heat", "start": "2024-06-02T22:50:16", "daily": 25200, "period": 8, "tank": 0.0, "reset_hour": 0,
